@@ -9,13 +9,15 @@ import numpy as np
 from harness import core
 
 
-def run_qs(P, W, mode, cut, shell, cell, scale_pow, s):
+def run_qs(P, W, mode, cut, shell, cell, scale_pow, s, f32=False):
     """Run the real QuickShift on lattice points P/s (dyadic), squared cut-offs cut/s^2 given
     before scaling by `scale`=2^scale_pow.  Returns projected outputs (1-based)."""
     from skmatter.clustering import QuickShift
     import skmatter.clustering._quick_shift as qm
     from skmatter.metrics import periodic_pairwise_euclidean_distances
     X = np.asarray(P, float) / s
+    if f32:
+        X = X.astype(np.float32)             # dyadic lattice coordinates are exact in single precision
     kw = {}
     if cell:
         kw["metric_params"] = {"cell_length": list(np.asarray(cell, float) / s)}
@@ -111,9 +113,13 @@ def gen(args):
                 base = [int(inv[res["labels"][perm[a]] - 1]) + 1 for a in range(N)]
                 out.append(mk("%s-perm%d" % (cid, pi), "permuted", P[perm], W[perm], mode, [cut[i] for i in perm], shell, cell, r2, base))
         elif v == 1:        # strictly increasing re-mapping of the weights
-            W2 = W.astype(int) * 3 + 7 if rng.random() < 0.5 else np.sign(W) * (np.abs(W) ** 3)
-            r2 = run_qs(P, W2, mode, cut, shell, cell, sp, s)
-            out.append(mk(cid + "-rew", "reweighted", P, W2, mode, cut, shell, cell, r2, res["labels"]))
+            rr = rng.random()
+            W2 = W.astype(int) * 3 + 7 if rr < 0.4 else (np.sign(W) * (np.abs(W) ** 3) if rr < 0.7 else 1.0 + 1e-10 * W.astype(float))
+            # (the last map is strictly increasing too: gaps of 1e-10, resolved in double precision only)
+            tiny = rr >= 0.7
+            r2 = run_qs(P, W2, mode, cut, shell, cell, sp, s, f32=tiny and rng.random() < 0.6)
+            # the record carries integer weights in the same order (W itself for the tiny-gap map)
+            out.append(mk(cid + "-rew", "reweighted", P, W if tiny else W2, mode, cut, shell, cell, r2, res["labels"]))
         elif cell:          # periodic images
             P2 = P + np.asarray(cell) * rng.integers(-3, 4, size=P.shape)
             r2 = run_qs(P2, W, mode, cut, shell, cell, sp, s)
